@@ -118,6 +118,14 @@ class FakeManager:
         return FakeResourceManager(self.flt, kind)
 
 
+class _Sized:
+    """Mixed into a filter that is a (currently empty) container: a legitimate filter object whose
+    truth value is False."""
+
+    def __len__(self) -> int:
+        return 0
+
+
 class FakeFilter:
     """In-process fake of the Custodian CELFilter; every document it returns embeds its id k."""
 
@@ -155,6 +163,10 @@ class FakeFilter:
     def get_accounts(self) -> List[str]:
         self._touch("get_accounts")
         return [f"acct-{self.k}"]
+
+
+class FalsyFilter(_Sized, FakeFilter):
+    pass
 
 
 class FakeResponse:
@@ -425,11 +437,15 @@ def _rand_net(r: Any) -> Tuple[str, int, int]:
 def gen_params(r: Any, kind: str) -> Dict[str, Any]:
     p: Dict[str, Any] = {"method": r.random() < 0.5}
     if kind in ("intersect", "difference", "unique_size"):
-        pool = r.choice([["a", "b", "c"], [0, 1, 2, 3], ["x", "y"]])
-        p["a"] = [r.choice(pool) for _ in range(r.randrange(0, 4))]
+        # lists of strings, of ints, and of both (equal elements then sit behind ones of the other
+        # type); up to five elements
+        pool = r.choice([["a", "b", "c"], [0, 1, 2, 3], ["x", "y"], ["a", 1, "b", 2], [1, "1", "a"]])
+        p["a"] = [r.choice(pool) for _ in range(r.randrange(0, 6))]
         p["b"] = [r.choice(pool) for _ in range(r.randrange(0, 4))]
     elif kind == "normalize":
-        p["s"] = r.choice([" AB ", "aB", "  ", "x Y ", "", "Zz  ", "  MiXed Case"])
+        # ... and letters whose lower-case form is not their case-folded form
+        p["s"] = r.choice([" AB ", "aB", "  ", "x Y ", "", "Zz  ", "  MiXed Case", "Stra\u00dfe ",
+                           " \u017fT", "\u00b5M ", "\u03a3\u0391\u03a3", " \u00c4b\u00d6 ", "\u0130x"])
     elif kind == "glob":
         atoms = [r.choice(_GLOB_PAT_ATOMS) for _ in range(r.randrange(0, 4))]
         p["pat"] = "".join(atoms)
@@ -540,6 +556,7 @@ def generate(seed: int, tier: str = "quick") -> Dict[str, Any]:
         "modes": rc.choice([MODES, MODES, ["runner"], ["with_C", "with_I"], ["runner", "direct"],
                             ["runner", "nested_runner"]]),
     }
+    cfg["falsy_filters"] = rc.random() < 0.2
     fault_kinds = []
     if cfg["fault_class"] == "faults":
         fault_kinds = [k for k in ("cel_error", "helper_error", "filter_raise", "net", "abort")
@@ -574,6 +591,8 @@ def generate(seed: int, tier: str = "quick") -> Dict[str, Any]:
             op["net_fault"] = rf.choice(["url_error", "timeout", "truncated_gzip"])
         if "abort" in fault_kinds and rf.random() < 0.25:
             op["abort"] = int(round(2 ** rf.uniform(0, 11)))
+        if cfg["falsy_filters"] and rw.random() < 0.5:
+            op["falsy_filter"] = True  # the filter object of this evaluation is an empty container
         ops.append(op)
     return {"prop": PROP, "seed": seed, "cfg": cfg, "programs": programs, "ops": ops}
 
@@ -605,7 +624,8 @@ def exec_history(trace: Dict[str, Any]) -> Dict[str, Any]:
             rec: Dict[str, Any] = {"mode": mode, "kind": kind, "k": k}
             if L.C7N is not None:
                 rec["pre_context"] = repr(getattr(L.C7N, "filter", None))[:60]
-            flt = FakeFilter(sim, k, raise_at=op.get("filter_raise_at"))
+            flt = (FalsyFilter if op.get("falsy_filter") else FakeFilter)(
+                sim, k, raise_at=op.get("filter_raise_at"))
             sim.current_k, sim.current_filter = k, flt
             sim.net_fault = op.get("net_fault")
             bad0 = len(sim.bad_context)
